@@ -125,6 +125,20 @@ pub fn diff_states(
     crate::tick_patch::diff_state(before, after)
 }
 
+/// `tick_patch::compute_patch_digest_v2` on already-canonical slot and op lists (the digest
+/// kernel `WarpTickPatchV1::new` and `validate_digest` call).
+#[must_use]
+pub fn patch_digest(
+    policy_id: u32,
+    rule_pack_id: &Hash,
+    commit_status: crate::tick_patch::TickCommitStatus,
+    in_slots: &[crate::tick_patch::SlotId],
+    out_slots: &[crate::tick_patch::SlotId],
+    ops: &[crate::tick_patch::WarpOp],
+) -> Hash {
+    crate::tick_patch::verif_patch_digest(policy_id, rule_pack_id, commit_status, in_slots, out_slots, ops)
+}
+
 /// `tick_patch::apply_ops_to_state`.
 ///
 /// # Errors
